@@ -9,6 +9,32 @@ use exmex::prelude::*;
 use exmex::DeepEx;
 use serde_json::json;
 
+/// The default float operators in reversed table order (constants and unary operators first).
+/// Derivative rules find operators by name, so the order of the table must not matter.
+#[derive(Clone, Debug)]
+pub struct ReversedFloatOps;
+impl exmex::MakeOperators<f64> for ReversedFloatOps {
+    fn make<'a>() -> Vec<exmex::Operator<'a, f64>> {
+        let mut v = <exmex::FloatOpsFactory<f64> as exmex::MakeOperators<f64>>::make();
+        v.reverse();
+        v
+    }
+}
+type FlatRev = FlatEx<f64, ReversedFloatOps>;
+type DeepRev<'a> = DeepEx<'a, f64, ReversedFloatOps>;
+
+/// first and second derivative (sequential single calls through the flat form, and through the
+/// deep form) over the reversed table, evaluated at `p`
+fn reversed_table_values(text: &str, w1: usize, w2: usize, p: &[f64]) -> Result<[f64; 4], String> {
+    let e = |x: exmex::ExError| x.msg().to_string();
+    let f = FlatRev::parse(text).map_err(e)?;
+    let d1 = f.clone().partial(w1).map_err(e)?;
+    let d2 = d1.clone().partial(w2).map_err(e)?;
+    let dd1 = DeepRev::parse(text).map_err(e)?.partial(w1).map_err(e)?;
+    let dd2 = FlatRev::from_deepex(dd1.clone()).map_err(e)?.partial(w2).map_err(e)?;
+    Ok([d1.eval(p).map_err(e)?, d2.eval(p).map_err(e)?, dd1.eval(p).map_err(e)?, dd2.eval(p).map_err(e)?])
+}
+
 /// the ways a derivative can be obtained: flat, deep, converted forms
 fn derivative_f64(text: &str, path: usize, idx: usize) -> Result<FlatEx<f64>, String> {
     let e = |x: exmex::ExError| x.msg().to_string();
@@ -99,6 +125,36 @@ fn float_case(rng: &mut Rng, st: &mut Stats) {
         }
         if st.samples.len() < st.max_samples && text.len() < 40 && text.len() > 8 {
             st.sample(json!({"text": text, "wrt": vars[wrt], "path": PATH_NAMES[path], "derivative_printed": d.unparse()}));
+        }
+    }
+    // the same over the reversed operator table
+    if rng.chance(1, 4) && !nondiff {
+        let w2 = rng.below(vars.len());
+        let p = sample_point(rng, vars.len());
+        if let (Some((_, want1, mag1)), Some((want2, mag2))) = (ref_d1(&tree, &table, &vars, &p, wrt), ref_d2(&tree, &table, &vars, &p, wrt, w2)) {
+            st.bump("reversed_table_points_judged");
+            match catch(|| reversed_table_values(&text, wrt, w2, &p)) {
+                Ok(Ok(v)) => {
+                    if !close(v[0], want1, mag1, 1e-9) || !close(v[2], want1, mag1, 1e-9) || !close(v[1], want2, mag2, 1e-7) || !close(v[3], want2, mag2, 1e-7) {
+                        st.violation(
+                            format!("reversed-table|{text}|d{}d{}", vars[wrt], vars[w2]),
+                            text.len() + 50,
+                            json!({"kind": "derivative-value-with-reordered-operator-table", "text": text, "wrt": [vars[wrt].clone(), vars[w2].clone()], "point": p, "got_[flat d1, flat d2, deep d1, deep->flat d2]": v.to_vec(), "true_first": want1, "true_second": want2}),
+                        );
+                        return;
+                    }
+                }
+                Ok(Err(m)) => {
+                    if !m.contains("both zero") {
+                        st.violation(format!("reversed-table-error|{text}"), text.len() + 50, json!({"kind": "derivative-error-with-reordered-operator-table", "text": text, "error": m}));
+                        return;
+                    }
+                }
+                Err(m) => {
+                    st.violation(format!("reversed-table-panic|{text}"), text.len() + 50, json!({"kind": "derivative-panic-with-reordered-operator-table", "text": text, "panic": m}));
+                    return;
+                }
+            }
         }
     }
     // higher order: second derivative through two successive calls
@@ -234,6 +290,7 @@ pub fn run(ctx: &Ctx) -> i32 {
     .assume("0^0 'both zero' errors of the power shortcut are counted, not judged")
     .require("points_judged", 10000)
     .require("second_order_points_judged", 1000)
+    .require("reversed_table_points_judged", 1000)
     .require("exact_points_judged", 5000)
     .require("rule_less_operator_reported_as_error", 500);
     for r in ["binary +", "binary -", "binary *", "binary /", "binary ^ (constant exponent)", "binary ^ (variable exponent)", "unary -", "unary +"] {
